@@ -252,4 +252,4 @@ def run(chk, facts_by_config):
             else:
                 chk.violation('zeroize-on-drop-marker', '%s|%s|zeroize-on-drop-marker' % (cfgname, tyname),
                               '%s does not implement ZeroizeOnDrop although built with the zeroize feature' % tyname)
-        chk.floor('field-coverage', n_types, 'types.' + ('tfnc' if 'tfnc' in cfgname else cfgname.split('-')[0]))
+        chk.floor('field-coverage', n_types, 'types.' + cfgname)
